@@ -12,6 +12,7 @@ type Family struct {
 	Defs     []m.Def
 	Alphabet []string // input characters (strings so that multi-byte runes and raw bytes fit)
 	MaxLen   int
+	Inputs   []string // non-nil: this explicit input list instead of all strings over the alphabet
 }
 
 func r(name, pat string) m.Rule { return m.Rule{Name: name, Pattern: pat} }
@@ -63,6 +64,14 @@ func Order(quick bool) Family {
 				continue
 			}
 			defs = append(defs, m.Def{"Root": {r(name(i), p), r(name(j), q)}})
+		}
+	}
+	// elided (lower-case) rules, including nullable ones that match the empty string
+	for _, q := range []string{`a*`, ``, `b?`, `\s*`, `a`, `[ab]+`} {
+		for i, p := range []string{`a`, `ab`, `.`, `b+`} {
+			defs = append(defs, m.Def{"Root": {r(name(i), p), r("ws", q)}})
+			defs = append(defs, m.Def{"Root": {r("ws", q), r(name(i), p)}})
+			defs = append(defs, m.Def{"Root": {r(name(i), p), r("ws", q), r("Any", `(?s:.)`)}})
 		}
 	}
 	trip := pats
@@ -224,8 +233,39 @@ func JSONEscapes(quick bool) Family {
 	return Family{Name: "json-escapes", Defs: defs, Alphabet: []string{`"`, `\`, "<", "&", "é", "😀", "a", " "}, MaxLen: lenFor(quick, 3, 4)}
 }
 
+// ErrSample: long unmatched remainders (the "invalid input text" error quotes a sample of them) with
+// multi-byte and truncated runes around the sample boundary.
+func ErrSample(quick bool) Family {
+	defs := []m.Def{
+		{"Root": {r("A", `a`)}},
+		{"Root": {r("A", `a`), r("ws", ` +`)}},
+		{"Root": {push("Open", `\(`, "S"), r("A", `a`)}, "S": {pop("Close", `\)`), r("B", `b`)}},
+	}
+	var ins []string
+	tails := []string{"€", "\xe2\x82", "\xff", "é", "日本", ""}
+	for n := 0; n <= 24; n++ {
+		for _, t := range tails {
+			for _, mm := range []int{0, 1, 2, 17} {
+				for _, pre := range []string{"", "a", "(b"} {
+					ins = append(ins, pre+repeat("#", n)+t+repeat("#", mm))
+					ins = append(ins, pre+repeat("é", n)+t+repeat("é", mm))
+				}
+			}
+		}
+	}
+	return Family{Name: "errsample", Defs: defs, Alphabet: []string{"#"}, MaxLen: 1, Inputs: ins}
+}
+
+func repeat(s string, n int) string {
+	out := ""
+	for i := 0; i < n; i++ {
+		out += s
+	}
+	return out
+}
+
 func All(quick bool) []Family {
-	return []Family{Order(quick), Names(quick), Stack(quick), Includes(quick), Backrefs(quick), Positions(quick), JSONEscapes(quick)}
+	return []Family{Order(quick), Names(quick), Stack(quick), Includes(quick), Backrefs(quick), Positions(quick), JSONEscapes(quick), ErrSample(quick)}
 }
 
 // Inputs enumerates every string over the alphabet up to maxLen.
